@@ -1,10 +1,31 @@
 ENGINES = [
- {"name": "kit", "path": "vkit/kit", "serves_properties": [], "kind_free_text": "bounded-exhaustive case enumeration over crash-isolating worker processes; evidence writer; known-findings matcher"},
+ {"name": "kit", "path": "vkit/kit", "serves_properties": [], "kind_free_text": "bounded-exhaustive case enumeration over crash-isolating worker processes; per-case journal; evidence writer; known-findings matcher"},
+ {"name": "E1 enum", "path": "vkit/worldkit + vkit/checks/*", "serves_properties": ["C01", "C20"], "kind_free_text": "bounded-exhaustive enumeration of inputs (products of small menus) against a reference model"},
+ {"name": "E2 hist", "path": "vkit/checks/*", "serves_properties": ["C39"], "kind_free_text": "explicit-state search over the real transition functions (complete state graph / BFS by history replay)"},
+ {"name": "E3 sched", "path": "vkit/sched + vkit/rewrite", "serves_properties": ["C28"], "kind_free_text": "controlled cooperative scheduler + stateless DFS over goroutine interleavings of the real code (rewritten at build time), iterative preemption bounding, happens-before state caching, deadlock detection"},
 ]
 NOT_APPLICABLE = {}
+
+def e1(technique, text, note):
+    return {"engine": "E1 enum", "level": "exploration", "technique": technique, "text": text, "note": note}
+
+def e2(technique, text, note):
+    return {"engine": "E2 hist", "level": "model_checking", "technique": technique, "text": text, "note": note}
+
+def e3(technique, text, note):
+    return {"engine": "E3 sched", "level": "model_checking", "technique": technique, "text": text, "note": note}
+
 CHECKS = {
- "C39": {"engine": "hist", "level": "model_checking",
-  "technique": "explicit-state model checking of the real b6.Tags methods: complete state graph (633 states x 114 ops, fixpoint) + all op sequences to depth 3/4 against an ordered-map reference",
-  "text": "Every transition of the complete reachable state graph of b6.Tags over 4 keys x 2 values is executed on the real methods and compared with an association-list reference (so histories of every length are covered by induction), plus all operation sequences to a depth on one live slice to cover spare-capacity aliasing.",
-  "note": "Keys {a,b,c,d}+absent e, values {x,y}; tag values are immutable string expressions; keys distinct (statement precondition)."},
+ "C39": e2("explicit-state model checking of the real b6.Tags methods: complete state graph (633 states x 114 ops, fixpoint) + all op sequences to depth 3/4 against an ordered-map reference",
+  "Every transition of the complete reachable state graph of b6.Tags over 4 keys x 2 values is executed on the real methods and compared with an association-list reference (so histories of every length are covered by induction), plus all operation sequences to a depth on one live slice to cover spare-capacity aliasing.",
+  "Keys {a,b,c,d}+absent e, values {x,y}; tag values are immutable string expressions; keys distinct (statement precondition)."),
+ "C01": e1("bounded-exhaustive enumeration: full product of the feature menu (8 slots, 20k/140k worlds) x ID schemes, each built with compact.BuildInMemory and compared with a reference world",
+  "Every combination of menu variants (points; paths by references / lat-lngs / mixed; areas by path, polygon, hole, mixed; relations incl. relation-of-relation and missing members) under ID schemes with custom and '/'-bearing namespaces and 64-bit value extremes is built into a compact index in crash-isolated workers, loaded back and compared feature by feature (tags with kinds, E7 points, path points and references, polygon loops, members, EachFeature) with the reference world.",
+  "Only feature sets that are valid as given (worldkit.ValidSubset is the identity); scratch buffer size reduced from 79 MB to 1 MB by a build-time single-token overlay transform of compact/build.go (falls back to the file as is if the token is absent); FindLocationByID only for point IDs."),
+ "C20": e1("bounded-exhaustive enumeration of printable expression trees (parser normal form) x whitespace variants; parse(unparse(e)) structural equivalence + span containment/coverage oracle",
+  "All normal-form expression trees up to depth 3 (4 in thorough, pruned menu) over 129 literals of every printable kind and 13 contexts, each printed, re-parsed (with every variant of 1-2 extra spaces at up to 3 token boundaries) and compared structurally; every node span must lie within its parent and cover its tokens.",
+  "Trees outside the parser's normal form and keys that would need quoting are outside the printable subset; lat/lng literal spans are a recorded known finding (repair would need edits to existing test goldens)."),
+ "C28": e3("stateless model checking of the real streaming code under a controlled scheduler: all interleavings up to a preemption bound (unbounded where exploration closes) with happens-before caching; deadlock = hang",
+  "The five streaming mechanisms (Uint64Map.EachItem, MemoryFeatureSource.Read, world EachFeature over eachIngestFeature, EachModifiedTag, ReadPBFWithOptions) run with their real goroutines/channels/selects/locks/wait-groups/contexts routed through the scheduler by a build-time source rewriter; for every scenario (items, goroutines, failing position, fail-once/always) every schedule is executed and checked: an error is returned, the call returns (no deadlock), no callback after return, and at most goroutines+capacity further callbacks begin after the first failure in executions that never decline a ready cancellation case.",
+  "Code between synchronisation operations runs atomically (data-race freedom assumed; sync/atomic not a scheduling point); map ranges use one fixed order; preemption bound 2 (quick) / 3 (thorough) where the unbounded exploration does not close; deadlines never fire."),
 }
